@@ -373,6 +373,12 @@ def gyields (hist : List NMem) (n : NMem) (gen : NGen) : List GEv → List (Trip
     | some t => (t, if gen.started then hist else [n]) :: gyields (if gen.started then hist else [n]) n (gen.next n).1 es
     | none => gyields (if gen.started then hist else [n]) n (gen.next n).1 es
 
+/-- number of `next()` calls of a schedule -/
+def gcountNext : List GEv → Nat
+  | [] => 0
+  | .next :: es => gcountNext es + 1
+  | .mutate _ :: es => gcountNext es
+
 /-- some step of the schedule raised -/
 def gschedRaises (n : NMem) (gen : NGen) : List GEv → Bool
   | [] => false
